@@ -91,6 +91,9 @@ type BoardHandle struct {
 	// many onto the board and then fails (FileStorage.Send and the node post a
 	// submission message by message; the board goes away in between), then heals
 	SendPartialOnce int
+	// SendErrOnEvent: the next Send whose first message carries this event fails
+	// (the board is unreachable exactly when the node publishes, say, a reconstruction), then heals
+	SendErrOnEvent string
 }
 
 var _ storage.Storage = (*BoardHandle)(nil)
@@ -105,6 +108,11 @@ func (h *BoardHandle) Send(msgs ...storage.Message) error {
 		key = msgs[0].Event
 	}
 	h.b.w.Gate("board.send", key)
+	if h.SendErrOnEvent != "" && key == h.SendErrOnEvent {
+		h.SendErrOnEvent = ""
+		h.b.w.Stats.Fault("board-send-error-at-" + key)
+		return errors.New("sim: board unreachable")
+	}
 	if h.Unavailable || h.SendErrOnce {
 		h.SendErrOnce = false
 		h.b.w.Stats.Fault("board-send-error")
